@@ -14,7 +14,7 @@ RULE = ("values from the seeded JSON generator (all string classes incl. isolate
         "big ints, permuted insertion orders), JSON texts in random spellings and malformed neighbours; a case is "
         "non-trivial when its value contains a container or a non-ASCII/escaped string; distinct = distinct canonical bytes")
 
-THEOREMS = ["parse_ser", "ser_injective", "ser_reorder", "ser_ascii", "ser_fixpoint", "reorder_canon", "parsed_roundtrips", "long_integer_literal_rejected"]
+THEOREMS = ["parse_ser", "ser_injective", "ser_reorder", "ser_ascii", "ser_fixpoint", "reorder_canon", "parsed_roundtrips", "long_integer_literal_rejected", "serPy_total_on_wf", "serPy_refuses_huge_int"]
 
 
 def nontrivial(v) -> bool:
@@ -123,6 +123,20 @@ def run(ck: Check) -> None:
         ck.oracle_checks += 1
         if r.impl != "E ArgError":
             ck.violation("a value outside the JSON universe was serialized instead of being refused", {"impl": r.impl[:100]}, "ser-non-json")
+    # CPython's limit on int -> str conversion (4300 digits) bounds the domain of the serializer: integers of exactly 4300 digits are serialized,
+    # one digit more is refused with ValueError wherever in the value it sits (model: serPy; theorems serPy_total_on_wf, serPy_refuses_huge_int)
+    lim = []
+    for z in (10 ** 4299, 10 ** 4300 - 1, -(10 ** 4300 - 1), 10 ** 4300, -(10 ** 4300), 10 ** 5000 + 7):
+        lim += [z, [1, z], {"a": {"b": z}}, {"k": [z, "x"]}]
+    for r in ck.run_cases([Case("ser", [x], tag="ser-int-limit") for x in lim], "corr:canonserialize/bytes"):
+        ck.oracle_checks += 1
+        x = r.case.args[0]
+        z = x if isinstance(x, int) else (x[1] if isinstance(x, list) else (x["a"]["b"] if "a" in x else x["k"][0]))
+        inside = abs(z) < 10 ** 4300
+        if inside and r.impl != "B " + gen.oracle_bytes(x).hex():
+            ck.violation("an integer of up to 4300 digits is not serialized to the published format", {"digits": len(str(abs(z))) if inside else ">4300", "impl": r.impl[:60]}, "int-limit-inside")
+        if not inside and r.impl != "E ArgError":
+            ck.violation("an integer beyond the interpreter's conversion limit was not refused with ValueError", {"impl": r.impl[:60]}, "int-limit-outside")
     res = ck.run_cases([Case("ser", [w], tag="ser-reparsed") for _, w in back], "corr:canonserialize/bytes")
     for (v, w), r in zip(back, res):
         ck.oracle_checks += 1
